@@ -218,6 +218,18 @@ def obligations(tier, seed):
         obs.append(Ob(id='C13.access.%s' % rep, prop='C13', group=grp, prelude=pre + '\n//--\n#include "au/quantity_point.hh"', wrappers=[win, wdf], inputs=[(ct, 'a')], body=body, fp=True,
                       contract='forall bit patterns (NaN payloads, infinities, signed zeros): unit(x).in(unit) and unit_pt(x).in(unit) return x bit for bit; R{} is +0',
                       functions_under_contract=('au::Quantity::in', 'au::QuantityPoint::in', 'au::QuantityMaker::operator()')))
+    # ---- default-INITIALISATION (`Quantity<U,R> q;`, no braces) yields R{}: the object is created on the stack without an initialiser and read back
+    wsd = []; chk = []
+    for rep in ('i8', 'u16', 'i32', 'u64', 'f32', 'f64'):
+        ctd = G.ctype(rep)
+        wq = Wrapper('w_definit_q_' + rep, ctd, [], 'au::Quantity<%s, %s> q; return q.in(%s{});' % (U, ctd, U))
+        wp = Wrapper('w_definit_p_' + rep, ctd, [], 'au::QuantityPoint<%s, %s> p; return p.in(%s{});' % (U, ctd, U))
+        wsd += [wq, wp]
+        zero = '0' if not G.is_fp(rep) else '0.0'
+        chk.append('  CHECK(%s() == %s && %s() == %s, "default-initialised-%s-holds-zero");' % (wq.name, zero, wp.name, zero, rep))
+    obs.append(Ob(id='C13.default-init', prop='C13', group='C13.definit', prelude=pre + '\n//--\n#include "au/quantity_point.hh"', wrappers=wsd, inputs=[], body='\n' + '\n'.join(chk) + '\n', fp=True,
+                  contract='a default-initialised (no initialiser at all) Quantity<U,R> / QuantityPoint<U,R> on the stack holds R{} for R in {int8, uint16, int32, uint64, float, double}: '
+                           'an uninitialised member would be an unconstrained value for the verifier', functions_under_contract=('au::Quantity::Quantity()', 'au::QuantityPoint::QuantityPoint()')))
     # ---- supporting static facts: layout, triviality, default construction and result TYPES (compile-time clauses of C13; no function contract expresses them)
     reps_ct = ['int8_t', 'uint8_t', 'int16_t', 'uint16_t', 'int32_t', 'uint32_t', 'int64_t', 'uint64_t', 'float', 'double', 'long double', 'bool', 'char']
     SH = '#include <type_traits>\n#include "au/au.hh"\n#include "au/units/meters.hh"\n#include "au/units/celsius.hh"\nusing namespace au;\n#define VF_STATIC_FACT(c) static_assert(c, "VF_STATIC_FACT")\n'
@@ -227,7 +239,8 @@ def obligations(tier, seed):
             T = tmpl % r
             L += ['VF_STATIC_FACT((sizeof(%s) == sizeof(%s) && alignof(%s) == alignof(%s)));' % (T, r, T, r),
                   'VF_STATIC_FACT((std::is_trivially_copyable<%s>::value && std::is_trivially_destructible<%s>::value && std::is_standard_layout<%s>::value));' % (T, T, T),
-                  'VF_STATIC_FACT((std::is_trivially_copy_constructible<%s>::value && std::is_trivially_copy_assignable<%s>::value));' % (T, T)]
+                  'VF_STATIC_FACT((std::is_trivially_copy_constructible<%s>::value && std::is_trivially_copy_assignable<%s>::value));' % (T, T),
+                  'VF_STATIC_FACT((std::is_nothrow_default_constructible<%s>::value && !std::is_trivially_default_constructible<%s>::value));   // the default constructor initialises the value' % (T, T)]
             if r not in ('bool',):
                 L.append('constexpr %s vf_d_%s_%s{}; VF_STATIC_FACT((vf_d_%s_%s.in(%s{}) == static_cast<%s>(0)));' % (T, fam, r.replace(' ', '_'), fam, r.replace(' ', '_'), 'Meters' if fam == 'quantity' else 'Celsius', r))
         obs.append(Ob(id='C13.static.layout.%s' % fam, prop='C13', group='C13.static', prelude='', wrappers=[], inputs=[], kind='S', body=SH + '\n'.join(L) + '\nint main() {}\n',
